@@ -6,6 +6,10 @@ HERE = os.path.dirname(os.path.dirname(os.path.abspath(__file__)))
 props = [json.loads(l) for l in open(os.path.join(HERE, "properties.jsonl"))]
 
 CLAIMS = {
+ "C14": dict(
+  technique="custom static checker: inductive-invariant argument for the fixed report buffer (every writer of limit/fill folded to establish the invariant; add() folded with wrap detection over the boundary lattice of limit x fill x vsnprintf result), constant evaluation of the footer reservation against the literal lengths, structural end-of-sequence rule for every first-difference scan with path-verified frozen exceptions, argument-role rules for the difference marker",
+  text="Decides that no call of add() can hand vsnprintf a window outside the 4096-byte buffer for any limit/fill the class can reach (including a limit lowered below the fill), that the reserved footer space covers the worst-case footer and the too-many notice is printed iff capacity was reached, that every reported leak is counted, that every scan for the first difference stops at the end of its operands or is only constructed where the operands are known to differ, and that expected/actual, printable forms and raw/printable indices are used in their roles. Exact message text and termination of the rendering helpers are not decided.",
+  note="Trusted: C99 vsnprintf contract; fewer than 2^31 leaks per report; clang AST/CFG."),
  "C04": dict(
   technique="custom static checker: abstract execution (constant folding over a small heap model) of every list primitive on every list of 0..4 records x every match pattern, exhaustive folding of isInPeriod over the 16 period pairs and of hash, structural coverage rules for the bucket loops, must-call pairing on the allocate/release/realloc paths, argument-slot agreement for record stamping, routing tables of the global operator overloads and function-pointer slots",
   text="Decides necessary conditions of exact accounting: records are filed and searched in the bucket of their own address, every bucket is visited by totals/first/next/clear, the period visibility table is exact, clear/remove/retrieve/total/first-from behave exactly on every short list and pattern (their per-node transition is uniform), every successful allocation stores one stamped record and every release removes first, the report counts every leak, and every operator new/delete/malloc overload reaches the tracked function, allocator family and record layout of its own kind. Equality of the table with the true outstanding set after every unbounded history is NOT decided (heap shape).",
